@@ -25,29 +25,43 @@ POOL = [
     (["len(", "    1,", "    2,", ")"], "fn"),                    # one diagnostic, statement spans four physical lines
     (['print("' + MARK + '", undefined_v%d)'], "fn"),             # marker text inside a string literal, not a comment
     (['y%d: str = 1'], "mod"),
-    (["z = 1"], "mod"),                                           # no diagnostic: a line that ignores can be attached to in vain
+    (["z = 1"], "mod"),
+    (["print(a + s)"], "fnp"),                                    # operator on typed (not literal) operands: checked through captured sub-errors
+    (["a += s"], "fnp"),                                           # no diagnostic: a line that ignores can be attached to in vain
 ]
 
 
+PREFIXES = [[], ["# a header comment"], ["# a header comment", ""], [""], ["# a header comment", "", "# another comment"]]
+
+
 def base_programs(tier):
+    """(prefix id, pool indices...): the prefix is a block of comment/blank lines before the first statement"""
     k = 2 if tier == "quick" else 3
     out = []
     idx = range(len(POOL))
     for n in range(1, k + 1):
         for sel in itertools.permutations(idx, n) if n <= 2 else itertools.combinations(idx, n):
-            out.append(sel)
+            out.append((0,) + tuple(sel))
+            if n <= (1 if tier == "quick" else 2):
+                for pf in range(1, len(PREFIXES)):
+                    out.append((pf,) + tuple(sel))
+    # two statements behind a prefix: enough for "a comment before the first statement must not act on later statements"
+    if tier == "quick":
+        for pf in range(1, len(PREFIXES)):
+            for sel in [(0, 1), (1, 2), (2, 0), (5, 1)]:
+                out.append((pf,) + sel)
     return out
 
 
 def render(sel):
-    lines = []
-    for j, pi in enumerate(sel):
+    lines = list(PREFIXES[sel[0]])
+    for j, pi in enumerate(sel[1:]):
         ls, kind = POOL[pi]
         ls = [l % j if "%d" in l else l for l in ls]
         if kind == "mod":
             lines += ls
         else:
-            lines.append("def f%d() -> None:" % j)
+            lines.append(("def f%d() -> None:" if kind == "fn" else "def f%d(a: int, s: str) -> None:") % j)
             lines += ["    " + l for l in ls]
     return lines
 
@@ -122,6 +136,25 @@ def _run_base(res, tier, sel, order0, only_event=None):
                 extra = [d for d in got if d not in exp]
                 res.violation({"kind": "disable-not-projection", "in_string": str(int(any(MARK in l for l in lines))), "lost": ",".join(sorted({d[0] for d in lost})), "extra": ",".join(sorted({d[0] for d in extra}))},
                               dict(case0, event=ev), "disabling %s on\n%s\nexpected %s\ngot %s" % (S, src, _strip_pos(exp), _strip_pos(got)))
+    # ---- (a') disabling any single code that does not occur must change nothing
+    for ec in (ErrorCode if sel[0] == 0 and len(sel) <= (2 if tier == "quick" else 3) else ()):
+        c = ec.name
+        if c in codes or c in ("unused_ignore", "bare_ignore"):
+            continue
+        ev = ["disable", [c]]
+        if only_event is not None and only_event != ev:
+            continue
+        res.states += 1
+        got = _check(src, settings={ec: False}, key="dis1:" + c)
+        res.transitions += 1
+        res.validated += 1
+        res.outcomes["disable-other:%s" % ("unchanged" if got == D else "changed")] += 1
+        if got != D:
+            lost = [d for d in D if d not in got]
+            extra = [d for d in got if d not in D]
+            res.violation({"kind": "disable-not-projection", "in_string": str(int(any(MARK in l for l in lines))), "lost": ",".join(sorted({d[0] for d in lost})),
+                           "extra": ",".join(sorted({d[0] for d in extra})), "disabled": c},
+                          dict(case0, event=ev), "disabling the non-occurring code %s on\n%s\nexpected %s\ngot %s" % (c, src, _strip_pos(D), _strip_pos(got)))
     # ---- (b) one ignore comment at every line, both forms, bare / each code / another code
     if any(MARK in l for l in lines):
         return      # programs carrying the marker inside a string literal are judged by (0) and (a) only: their baseline already depends on that literal
@@ -133,6 +166,8 @@ def _run_base(res, tier, sel, order0, only_event=None):
         for form in ("trailing", "own"):
             if li == len(lines) and form == "trailing":
                 continue
+            if form == "trailing" and li < len(lines) and not lines[li].strip():
+                continue        # a "trailing" comment on a blank line is an own-line comment
             for code in variants:
                 for unused_on, bare_on in modes:
                     ev = ["comment", li, form, code, unused_on]
@@ -171,7 +206,8 @@ def _run_base(res, tier, sel, order0, only_event=None):
                     Dm = Dmode[(unused_on, bare_on)]
                     meta0 = [(c, shift(l)) for c, l, col, desc in Dm if c in ("unused_ignore", "bare_ignore")]
                     shifted = [(c, shift(l), col, desc) for c, l, col, desc in Dm if c not in ("unused_ignore", "bare_ignore")]
-                    file_level = form == "own" and li == 0 and code is None
+                    # file-level: a bare own-line comment with nothing but comment lines above it (a blank line is not a comment line)
+                    file_level = form == "own" and code is None and li < len(lines) and all(l.startswith("#") for l in lines[:li])
                     if file_level:
                         exp_core = []
                         suppressed = list(shifted)
@@ -194,7 +230,7 @@ def _run_base(res, tier, sel, order0, only_event=None):
                         where = "first" if li == 0 else ("after-last" if li == len(lines) else "last" if li == len(lines) - 1 else "middle")
                         tgt_kind = "target-has-diag" if suppressed else "target-clean"
                         sig = {"kind": "comment-not-projection", "form": form, "code": "bare" if code is None else ("matching" if code in codes else "other"),
-                               "where": where, "target": tgt_kind,
+                               "where": where, "target": tgt_kind, "before_first_stmt": str(int(li < len(lines) and all(l.startswith("#") for l in lines[:li]))),
                                "core": ("over-suppressed" if lost and not extra else "under-suppressed" if extra and not lost else "both" if lost else "ok"),
                                "meta": "ok" if got_extra == sorted(exp_extra) else "unused/bare:%s->%s" % (sorted(exp_extra), got_extra),
                                "in_string": str(int(any(MARK in l and "print(" in l for l in lines))),
